@@ -496,8 +496,11 @@ theorem DOK_sliceCountWith (lb sr : Int) : DOK (sliceCountWith lb sr) := by
     · exact Nat.le_refl _
   · split
     · exact DOK_pure _
-    · refine DOK_bind _ _ DOK_parseAlignBits (fun _ => ?_)
-      exact DOK_bind _ _ (DOK_takeOctets 1) (fun _ => DOK_pure _)
+    · refine DOK_bind _ _ (DOK_parseLength _) (fun x => ?_)
+      split
+      split
+      · exact DOK_fail_error
+      · exact DOK_pure _
 
 theorem DOK_sliceCount (params : Params) (se : Bool) : DOK (sliceCount params se) := by
   unfold sliceCount
